@@ -445,5 +445,21 @@ theorem signBit_of_pos {x : F64} (hx : Finite x) (h : 0 < val x) : signBit x = f
     have : (0 : ℚ) ≤ (m : ℚ) * 2 ^ e := by positivity
     linarith
 
+/-! ### small facts about powers of two -/
+
+theorem P63_cast : ((P63 : ℕ) : ℚ) = 2 ^ 63 := by norm_num [P63]
+
+theorem representable_two_pow (k : ℕ) (hk : k < 1024) : Representable ((2 : ℚ) ^ k) := by
+  refine ⟨1, k, by unfold P53; omega, by omega, ?_, ?_⟩
+  · have : Nat.log2 1 = 0 := by decide
+    rw [this]; omega
+  · rw [abs_of_pos (by positivity), Nat.cast_one, one_mul, zpow_natCast]
+
+theorem representable_one : Representable (1 : ℚ) := by
+  simpa using representable_two_pow 0 (by omega)
+
+theorem two_pow_lt_big (k : ℕ) (hk : k < 1023) : (2 : ℚ) ^ k < 2 ^ (1023 : ℤ) := by
+  rw [← zpow_natCast, two_zpow_lt_iff]; omega
+
 end F64
 end Ysgo
